@@ -69,7 +69,10 @@ Theorem locate_one_tol_spec ls qs v qv t :
   \/ (locate_one_tol ls v (TolQ t) = Err IndexError /\
       forall j, j < List.length qs -> (t < nth j (dists qs qv) 0)%Q).
 Proof.
-  intros Hv Hls. unfold locate_one_tol. rewrite Hv, Hls. fold (dists qs qv).
+  intros Hv Hls. unfold locate_one_tol.
+  destruct ls as [|l0 lt].
+  { right. split; [reflexivity|]. simpl in Hls. injection Hls as <-. simpl. intros j Hj. lia. }
+  cbv iota. rewrite Hv, Hls. fold (dists qs qv).
   destruct (dists qs qv) as [|d0 t0] eqn:Ed.
   - right. split; [reflexivity|]. destruct qs; [simpl; intros j Hj; lia | discriminate].
   - assert (Hlen : List.length (d0 :: t0) = List.length qs) by (rewrite <- Ed; unfold dists; apply map_length).
@@ -89,7 +92,10 @@ Theorem locate_one_tol_inf ls qs v qv :
   exists m, locate_one_tol ls v TolInf = Ok m /\ m < List.length qs /\
             (forall j, j < List.length qs -> (nth m (dists qs qv) 0 <= nth j (dists qs qv) 0)%Q).
 Proof.
-  intros Hv Hls Hne. unfold locate_one_tol. rewrite Hv, Hls. fold (dists qs qv).
+  intros Hv Hls Hne. unfold locate_one_tol.
+  destruct ls as [|l0 lt].
+  { simpl in Hls. injection Hls as <-. contradiction. }
+  cbv iota. rewrite Hv, Hls. fold (dists qs qv).
   destruct (dists qs qv) as [|d0 t0] eqn:Ed.
   - destruct qs; [contradiction | discriminate].
   - assert (Hlen : List.length (d0 :: t0) = List.length qs) by (rewrite <- Ed; unfold dists; apply map_length).
